@@ -179,7 +179,10 @@ struct RGen { std::mt19937_64 rng; uint64_t R(uint64_t n) { return rng() % n; }
             case 'h': { static const uint64_t b[] = {0, 1, ~0ull, 0x7fffffffffffffffull, 0x8000000000000000ull, 0xfffffffffull}; w.limbs64(R(3) ? rng() : b[R(6)]); break; }
             case 't': { uint64_t secs = 946684800ull + 2208988800ull + R(900000000);
                           // a third of the tags sit on the boundaries of the printed form: midnight, the first minute of a day, full minutes, full hours, the last second
-                          if (R(3) == 0) { uint64_t day = secs - secs % 86400; static const unsigned tod[] = {0, 1, 7, 59, 60, 61, 3599, 3600, 3601, 43200, 86340, 86399}; secs = day + (R(4) ? tod[R(12)] : 60 * R(1440)); } uint64_t t = R(4) == 0 ? 1 : (secs << 32) | (R(2) ? 0 : ((uint64_t)(R(1 << 20)) << 12)); w.limbs64(t); break; }
+                          if (R(3) == 0) { uint64_t day = secs - secs % 86400; static const unsigned tod[] = {0, 1, 7, 59, 60, 61, 3599, 3600, 3601, 43200, 86340, 86399}; secs = day + (R(4) ? tod[R(12)] : 60 * R(1440)); } // fractions: any value with at most 24 significant bits is float-representable - high ones (m << 12), low ones (a few units of 2^-32), and everything between
+                          uint64_t fr = 0; switch (R(6)) { case 0: case 1: fr = 0; break; case 2: fr = (uint64_t)R(1 << 20) << 12; break; case 3: fr = 1 + R(255); break;
+                                                           case 4: fr = R(1 << 24); break; default: fr = ((uint64_t)R(1 << 24) << R(9)) & 0xffffffffu; if (fr >> 24 && (fr & ((1u << 8) - 1))) fr &= ~0xffull; }
+                          uint64_t t = R(4) == 0 ? 1 : (secs << 32) | fr; w.limbs64(t); break; }
             case 's': case 'S': { w.arr(); unsigned n = (unsigned)(R(6) == 0 ? 30 + R(60) : R(8)); for (unsigned i = 0; i < n; ++i) { unsigned c = R(8) == 0 ? (unsigned)"\n\t\\'\"%\a\b\v\f\r"[R(11)] : 32 + (unsigned)R(95); w.num(c); } w.end_arr(); break; }
             case 'b': { w.arr(); unsigned n = (unsigned)(R(6) == 0 ? 20 + R(30) : R(6)); for (unsigned i = 0; i < n; ++i) w.num(R(256)); w.end_arr(); break; }
             case 'm': w.arr().num(R(256)).num(R(256)).num(R(256)).num(R(256)).end_arr(); break;
